@@ -68,9 +68,11 @@ class Coord(object):
         if isinstance(e, ast.IfExp):
             return _u(self.tags(e.body, env, fi), self.tags(e.orelse, env, fi))
         if isinstance(e, ast.BinOp):
-            if isinstance(e.op, ast.Sub) and self._is_len(e.left) and self._is_len(e.right):
+            left, right = self._single_def(e.left, fi), e.right
+            if isinstance(e.op, ast.Sub) and self._is_len(left) and self._is_len(right):
                 # len(s) - len(s.lstrip(..)): the number of characters stripped from the front, a position in s itself
-                a, b = e.left.args[0], e.right.args[0]
+                # (either length, and the stripped copy, may be held in a local bound once)
+                a, b = left.args[0], self._single_def(right.args[0], fi)
                 if isinstance(b, ast.Call) and isinstance(b.func, ast.Attribute) and b.func.attr in ("lstrip", "removeprefix") and ast.dump(b.func.value) == ast.dump(a):
                     self.tags(a, env, fi)
                     return frozenset(("p", t[1]) for t in self.tags(a, env, fi) if t[0] == "o")
@@ -86,6 +88,16 @@ class Coord(object):
         if isinstance(e, ast.Call):
             return self.call(e, env, fi)
         return frozenset()
+
+    @staticmethod
+    def _single_def(e, fi):
+        """the value of a local that is bound exactly once in the function (else the expression itself)"""
+        if isinstance(e, ast.Name) and fi is not None:
+            defs = [st for st in ast.walk(fi.node) if isinstance(st, ast.Assign) and any(isinstance(t, ast.Name) and t.id == e.id for t in st.targets)]
+            stores = [n for n in ast.walk(fi.node) if isinstance(n, ast.Name) and n.id == e.id and isinstance(n.ctx, ast.Store)]
+            if len(defs) == 1 and len(stores) == 1 and len(defs[0].targets) == 1:
+                return defs[0].value
+        return e
 
     @staticmethod
     def _is_len(e):
